@@ -90,7 +90,14 @@ class HW(ls.World):
 
     def start(self):
         try:
-            super().start()
+            self.sq.start(wait_ready=False)
+            for attempt in range(5):        # an overloaded machine can exceed lockstep's 60 s start-up allowance
+                try:
+                    self.sq.wait_ready()
+                    break
+                except HarnessError as e:
+                    if 'not ready after' not in str(e) or attempt == 4:
+                        raise
             self._collect(2)
         except BaseException:
             self.stop()
